@@ -213,7 +213,7 @@ def pick(cfg, x):
     return x
 
 
-def run(cfg, batches, cut=None):
+def run(cfg, batches, cut=None, failsink=None):
     fam, agg, wk, w, col = cfg["family"], cfg["agg"], cfg["winkind"], cfg["w"], cfg["col"]
     use_ws = cut is not None and (fam in ("window", "wgroupby", "rolling", "ewm") or (fam == "groupby" and agg == "mean"))
     srcA = Stream()
@@ -222,6 +222,16 @@ def run(cfg, batches, cut=None):
     except Exception as e:      # the pipeline cannot even be constructed over an empty example
         return {"cfg": cfg, "cut": cut or 0, "steps": [{"raw": [], "error": "construction: " + repr(e)[:160]}]}
     LA = resA.stream.sink_to_list()
+    armed = [False]
+    if failsink:
+        # a second consumer, attached after the one that records the results (and the exposed state): it raises for one batch;
+        # the emitter catches the exception and carries on.  The accumulator has taken that batch in, and the state it exposed
+        # for it is the state it continues from.
+        def raiser(x):
+            if armed[0]:
+                armed[0] = False
+                raise Injected("downstream consumer failed")
+        resA.stream.sink(raiser)
     LM = mid.stream.sink_to_list() if mid is not None else None
     nodeA = resA.stream
     srcB = LB = None
@@ -243,7 +253,13 @@ def run(cfg, batches, cut=None):
                 resB, _ = build(cfg, srcB, start=state, with_state=use_ws)
                 LB = resB.stream.sink_to_list()
             nA = len(LA)
-            srcA.emit(raw)
+            armed[0] = bool(failsink and i == failsink)
+            try:
+                srcA.emit(raw)
+            except Injected:
+                if not (failsink and i == failsink):
+                    raise
+                st["sink_failed"] = True
             if srcB is not None:
                 nB = len(LB)
                 srcB.emit(raw)
@@ -408,7 +424,9 @@ def main():
         if restartable:
             for seq in batch_sequences(cfg, rng, max(per // 3, 6)):
                 if len(seq) >= 2:
-                    runs.append(run(cfg, seq, cut=rng.randint(1, len(seq) - 1)))
+                    cut = rng.randint(1, len(seq) - 1)
+                    # (every third restart scenario: a consumer behind the recording one fails for the batch at the cut or before)
+                    runs.append(run(cfg, seq, cut=cut, failsink=rng.randint(1, cut) if rng.random() < 0.35 and not cfg.get("failagg") and not cfg.get("pre") else None))
     for i, r in enumerate(runs, start=1):
         r["id"] = i
     os.makedirs(a.out, exist_ok=True)
